@@ -971,5 +971,7 @@ def run(chk):
 
     from verif import fallthrough
     fallthrough.run(chk, "C06", floor=16)
+    from verif import argorder
+    argorder.run(chk, "C06", floor=25)
 
     chk.assumptions += ["dimension table FIELDS/CELL in rules/C06.py (CF and Kh are L^3 in SI, Ke L^2, radii and lengths L, skin and the Peaceman denominator dimensionless); numeric literals are dimension-polymorphic (sentinels such as -1.0)"]
